@@ -111,15 +111,36 @@ def isDirectiveName : List Char → Bool
 
 /-! ### `// @jsx name` pragma comments -/
 
-/-- what `search_jsx_pragma` extracts from one comment text, if anything -/
-def pragmaOfComment (c : List Char) : Option (List Char) :=
-  let t := trimWs c
-  let t := match stripPrefix ['*'] t with
-    | some r => r
-    | none => t
-  let t := trimWs t
-  match stripPrefix "@jsx".toList t with
-  | some r => some (trimWs r)
-  | none => none
+/-- the maximal run of non-whitespace characters at the start -/
+def firstToken : List Char → List Char
+  | [] => []
+  | x :: xs => if isUnicodeWs x then [] else x :: firstToken xs
+
+/-- a block comment's leading `*` (JSDoc style) is skipped -/
+def stripStar (t : List Char) : List Char :=
+  match stripPrefix ['*'] t with
+  | some r => r
+  | none => t
+
+/-- the comment text after trimming, an optional `*`, and trimming again -/
+def commentBody (c : List Char) : List Char := trimWs (stripStar (trimWs c))
+
+/-- what follows `@jsx` when the comment body starts with it -/
+def afterJsxTag (c : List Char) : Option (List Char) := stripPrefix "@jsx".toList (commentBody c)
+
+/-- `@jsx` must be followed by a blank; the pragma is the next word -/
+def pragmaOfRest : List Char → Option (List Char)
+  | [] => none
+  | ch :: r =>
+    if isUnicodeWs ch then
+      match firstToken (trimStartWs r) with
+      | [] => none
+      | name => some name
+    else none
+
+/-- what `search_jsx_pragma` extracts from one comment text, if anything:
+    after trimming, an optional `*` and blanks: `@jsx`, at least one blank, then the name (up to the next blank).
+    `@jsxImportSource`, `@jsxRuntime`, `@jsxFrag` and a bare `@jsx` give nothing. -/
+def pragmaOfComment (c : List Char) : Option (List Char) := (afterJsxTag c).bind pragmaOfRest
 
 end VueJsx.Text
